@@ -382,8 +382,30 @@ theorem w_hv_number_syntax :
 theorem w_hv_boolean_syntax :
     verdicts [{ name := "X-B".toList, type := "boolean", required := true }] [] "X-B" "T" {} {} = (true, false) := by decide
 
-theorem w_hv_uuid_syntax :
-    verdicts [{ name := "X-U".toList, type := "string", format := "uuid", required := true }] [] "X-U" "zzzzzzzz-zzzz-zzzz-zzzz-zzzzzzzzzzzz" {} {} = (true, false) := by decide
+/-- **format uuid: the two validators agree on EVERY value** (since c966581 the Go check also
+demands a hex digit at every non-dash position): 36 characters, `-` at 8, 13, 18, 23, `[0-9a-fA-F]`
+elsewhere — upper case accepted by both, braces / wrong length / non-hex rejected by both, the
+version nibble checked by neither. -/
+theorem uuid_validators_agree (v : Str) : TsHeaders.uuidRegex v = Headers.uuidShape v := by
+  by_cases h : v.length = 36
+  · iterate 36 (rcases v with _ | ⟨c, v⟩; (· simp at h))
+    rcases v with _ | ⟨c, v⟩
+    · simp only [TsHeaders.uuidRegex, Headers.uuidShape, Headers.uuidShapeBeforeFix, Headers.isDashPos]
+      simp [List.range, List.range.loop, List.zipIdx]
+      ac_rfl
+    · simp at h
+  · have : (v.length == 36) = false := by simpa using h
+    simp [TsHeaders.uuidRegex, Headers.uuidShape, Headers.uuidShapeBeforeFix, this]
+
+/-- **regression witness** (finding `header_verdict_differs:uuid_syntax`, fixed by c966581): the
+former Go check (length and dashes only) accepted a non-hex value the TS server rejects; today
+both servers answer 400, and both dispatch an upper-case uuid. -/
+theorem w_hv_uuid_syntax_regression :
+    Headers.uuidShapeBeforeFix "zzzzzzzz-zzzz-zzzz-zzzz-zzzzzzzzzzzz".toList = true ∧
+    TsHeaders.uuidRegex "zzzzzzzz-zzzz-zzzz-zzzz-zzzzzzzzzzzz".toList = false ∧
+    verdicts [{ name := "X-U".toList, type := "string", format := "uuid", required := true }] [] "X-U" "zzzzzzzz-zzzz-zzzz-zzzz-zzzzzzzzzzzz" {} {} = (false, false) ∧
+    verdicts [{ name := "X-U".toList, type := "string", format := "uuid", required := true }] [] "X-U" "123E4567-E89B-42D3-A456-426614174000" {} {} = (true, true) ∧
+    verdicts [{ name := "X-U".toList, type := "string", format := "uuid", required := true }] [] "X-U" "{123e4567-e89b-42d3-a456-426614174000}" {} {} = (false, false) := by decide
 
 theorem w_hv_email_syntax :
     verdicts [{ name := "X-E".toList, type := "string", format := "email", required := true }] [] "X-E" "a@b" {} {} = (true, false) := by decide
